@@ -1340,6 +1340,129 @@ func runCreateOnce(seed uint64, sh Shape, rounds int, res *vh.Result) int {
 	return ops
 }
 
+// runTraverseSnapshot: forced schedule on Traverse.  One shard (the whole map for SingleLockedMap) holds keys
+// k, k+size, k+2*size, ... all with value 1.  A Traverse parks inside its callback on the first key it visits in
+// that shard; a writer then changes SEVERAL keys of the same shard (SetValue 2 / RemoveValue / SetValue of a new key).
+// On a map whose Traverse of a shard is one critical section the writer blocks until the traverse of the shard ends
+// (bounded wait here, then the callback is resumed).  Oracle: what the traverse reports for that shard is the
+// shard's content at ONE moment: the content before the writer's operations or the content after all of them,
+// never a mix; every key is reported at most once.
+func runTraverseSnapshot(seed uint64, size uint64, res *vh.Result) int {
+	sh := Shape{Name: fmt.Sprintf("size%d", size), Sizes: []uint64{size}}
+	rp := FreeReplay{Free: "traverse", Shape: sh, Seed: seed}
+	r := vh.NewRand(seed)
+	m := sh.build()
+	base := uint64(r.Intn(int(size)))
+	inShard := func(k uint64) bool { return size == 1 || k%size == base%size }
+	nkeys := r.Range(2, 5)
+	before := map[uint64]int{}
+	for i := 0; i < nkeys; i++ {
+		k := base + uint64(i)*size
+		m.SetValue(k, 1)
+		before[k] = 1
+	}
+	for i := 0; i < 3; i++ { // other shards: noise
+		m.SetValue(base+1+uint64(i)*size, 7)
+	}
+	if size == 1 {
+		for i := 0; i < 3; i++ {
+			before[base+1+uint64(i)] = 7
+		}
+	}
+	// the writer's operations, all on keys of the shard; at least two of them
+	type wop struct {
+		set bool
+		k   uint64
+	}
+	var wops []wop
+	after := map[uint64]int{}
+	for k, v := range before {
+		after[k] = v
+	}
+	for i := 0; i < nkeys; i++ {
+		k := base + uint64(i)*size
+		switch {
+		case r.Chance(1, 4):
+			wops = append(wops, wop{false, k})
+			delete(after, k)
+		default:
+			wops = append(wops, wop{true, k})
+			after[k] = 2
+		}
+	}
+	if r.Bool() {
+		k := base + uint64(nkeys+3)*size
+		wops = append(wops, wop{true, k})
+		after[k] = 2
+	}
+	inCallback, release := make(chan struct{}), make(chan struct{})
+	reported := map[uint64]int{}
+	dup := false
+	var once sync.Once
+	tdone := make(chan struct{})
+	go func() {
+		defer close(tdone)
+		m.Traverse(func(k uint64, v int) bool {
+			if !inShard(k) {
+				return true
+			}
+			if _, ok := reported[k]; ok {
+				dup = true
+			}
+			reported[k] = v
+			once.Do(func() {
+				close(inCallback)
+				<-release
+			})
+			return true
+		})
+	}()
+	<-inCallback
+	wdone := make(chan struct{})
+	go func() {
+		defer close(wdone)
+		for _, w := range wops {
+			if w.set {
+				m.SetValue(w.k, 2)
+			} else {
+				m.RemoveValue(w.k)
+			}
+		}
+	}()
+	blocked := true
+	select {
+	case <-wdone:
+		blocked = false
+	case <-time.After(3 * time.Millisecond):
+	}
+	close(release)
+	<-tdone
+	<-wdone
+	if blocked {
+		res.Dist("traverse-writer-blocked-until-shard-done")
+	} else {
+		res.Dist("traverse-writer-not-blocked")
+	}
+	eq := func(a, b map[uint64]int) bool {
+		if len(a) != len(b) {
+			return false
+		}
+		for k, v := range a {
+			if w, ok := b[k]; !ok || w != v {
+				return false
+			}
+		}
+		return true
+	}
+	if dup || (!eq(reported, before) && !eq(reported, after)) {
+		res.Fail("traverse-not-a-snapshot", fmt.Sprintf("Traverse on a map of %d shard(s): a writer changed %d keys of one shard while the callback was inside that shard; reported %v is neither the shard's content before (%v) nor after (%v) the writer (duplicate=%v)", size, len(wops), reported, before, after, dup), rp)
+	}
+	if l, k := m.Len(), len(m.Map()); l != k {
+		res.Fail("len-not-keys", fmt.Sprintf("traverse schedule: Len() = %d, keys = %d", l, k), rp)
+	}
+	return len(wops) + 1
+}
+
 // ------------------------------------------------------------------ main
 
 func freeMain(o *vh.Opts, out string) {
@@ -1377,6 +1500,11 @@ func freeMain(o *vh.Opts, out string) {
 		res.Count(fmt.Sprintf("createonce-%d", i), true)
 		res.Distribution["createonce-callers"] += n
 	}
+	for i := 0; i < o.Pick(120, 1500); i++ {
+		n := runTraverseSnapshot(r.U64(), []uint64{1, 1, 2, 3, 7, 64}[i%6], res)
+		res.Count(fmt.Sprintf("traverse-%d", i), true)
+		res.Distribution["traverse-schedule-ops"] += n
+	}
 	b, _ := json.Marshal(res)
 	if err := os.WriteFile(out, b, 0o644); err != nil {
 		panic(err)
@@ -1409,6 +1537,10 @@ func main() {
 				r2 := vh.NewResult("")
 				runCreateOnce(rp.Seed, rp.Shape, 12, r2)
 				fmt.Printf("replay createonce: failures=%v\n", r2.Failures)
+			case rp.Free == "traverse":
+				r2 := vh.NewResult("")
+				runTraverseSnapshot(rp.Seed, rp.Shape.Sizes[0], r2)
+				fmt.Printf("replay traverse: failures=%v\n", r2.Failures)
 			case rp.Free == "stress":
 				r2 := vh.NewResult("")
 				runStress(rp.Seed, rp.Shape, r2)
